@@ -6,7 +6,7 @@
 (* Dependencies and the requested set are computed here from the recorded     *)
 (* configuration (Targets.tla, Dag.tla); the implementation's own idea of     *)
 (* them is never trusted.                                                     *)
-EXTENDS RunRules, Targets, Dag, Sequences, SequencesExt, Json, IOUtils
+EXTENDS RunRules, Targets, Dag, Plan, Sequences, SequencesExt, Json, IOUtils
 
 Rec == ndJsonDeserialize(IOEnv.TRACE)
 
@@ -93,7 +93,18 @@ RejectWhy(r) ==
      ELSE IF Len(r.events) # 0 THEN "C09:an executable was started for a cyclic configuration"
      ELSE ""
 
+\* C11: what one started executable observed (argv, cwd, its own path) against Plan.tla
+ArgvWhy(r) ==
+  LET named == { <<x[1], x[2]>> : x \in RangeOf(r.named) }
+      want  == Argv(r.base, named, r.requested, r.args, r.nobase)
+  IN IF r.observed.started # 1 THEN "C11:executable not started exactly once"
+     ELSE IF r.observed.argv # want THEN "C11:argument list differs from base ++ requested argmaps ++ args"
+     ELSE IF r.observed.cwd # r.target THEN "C11:working directory is not the target directory"
+     ELSE IF ~ResolveOK(r.defpath, r.hasdef, RangeOf(r.candidates), r.cmd, r.observed.exe) THEN "C11:wrong executable resolved"
+     ELSE ""
+
 Whys(r) == CASE r.ev = "run"    -> RunWhys(r)
+             [] r.ev = "argv"   -> {ArgvWhy(r)} \ {""}
              [] r.ev = "reject" -> {RejectWhy(r)} \ {""}
              [] OTHER           -> {"unknown record kind"}
 
